@@ -10,7 +10,7 @@ TXS = "storage::commands::transactions::TransactionState."
 QUEUE_TY = "std::collections::VecDeque<std::vec::Vec<protocol::resp::RespFrame>>"
 
 
-CONTROL = ("MULTI", "EXEC", "DISCARD", "WATCH", "UNWATCH")     # the commands Redis never queues
+CONTROL = ("MULTI", "EXEC", "DISCARD", "WATCH")     # the commands Redis never queues (UNWATCH inside MULTI is queued)
 QUEUED_FIELD_SUFFIX = "TransactionState.queued_commands"
 
 
@@ -27,6 +27,35 @@ def queue_functions(ctx):
                         out.add(fn)
         return out
     return ctx.memo("queue_functions", compute)
+
+
+def not_in_tx_region(ctx, b, reads):
+    """blocks that run only when the connection is NOT in a transaction: behind the false edge of a
+    bool switch on the in_transaction flag read from the connection (`"UNWATCH" if !in_transaction`)"""
+    out = set()
+    for x, bb in enumerate(b.bbs):
+        t = bb["t"]
+        if t["k"] != "switch" or op_is_const(t["d"]):
+            continue
+        pl = op_place(t["d"])
+        if pl["p"] or b.locals[pl["l"]] != "bool":
+            continue
+        neg = False; l = pl["l"]
+        # through `!flag`
+        for st in bb["s"]:
+            if st["k"] == "=" and st["l"]["l"] == l and not st["l"]["p"] and st["r"]["k"] == "un" and st["r"].get("op") == "Not" and not op_is_const(st["r"]["o"]):
+                l = op_place(st["r"]["o"])["l"]; neg = True
+        P = prov.origins(b, l, deep=True)
+        from_state = any(r[0] == "call" and r[2] in reads for r in P.roots) or b.names.get(l) == "in_transaction"
+        if not from_state or P.has_call(r"should_queue|is_control"):
+            continue
+        zero = dict(t["ts"]).get(0)
+        tgt = (t["o"] if neg else zero)
+        if neg and zero is not None and t["o"] == zero:
+            continue
+        if tgt is not None:
+            out |= cfg.edge_dom_set(b, x, tgt)
+    return out
 
 
 def queue_decision(ctx, b):
@@ -87,6 +116,7 @@ def rule_queue(ctx, R):
     if qd is None:
         R.inst(PF, "queue-test"); R.finding(PF, "queue-test:missing", "no in_transaction / command-class decision guarding a queue step found in process_frame", b.loc()); return
     qi, decisions, queued_t, _reads = qd
+    notx = not_in_tx_region(ctx, b, set(_reads or ()))
     sw = (decisions[-1], b.term(decisions[-1]))
     if queued_t is None:
         R.broken.append("queued edge of the queue decision not found"); return
@@ -111,7 +141,7 @@ def rule_queue(ctx, R):
     for i, t in b.calls():
         if i == qi or not rules_auth.is_priv_site(ctx, t, cache):
             continue
-        if i in ctrl_region or i in refuse:
+        if i in ctrl_region or i in refuse or i in notx:
             continue
         cal = callee(t)
         short = shared.site_name(ctx, t)
